@@ -222,9 +222,14 @@ func genC03(t *rapid.T) c03Case {
 				m.Initial = rapid.SampledFrom([]uint64{1, 2, 3, 4}).Draw(t, "storeinit")
 			}
 		}
-		if _, err := exec.NewOutputModuleGraph(c.Prog.Maps()[len(c.Prog.Maps())-1], false, c.Prog.Modules(), 0); err != nil {
-			for i := range c.Prog.Graph.Mods {
-				c.Prog.Graph.Mods[i].Initial = 1
+		// every mapper may become the output module: all of them must remain acceptable (a mapper that starts at 1 and
+		// reads nothing but stores that start later has no input available at its initial block, and is rejected)
+		for _, out := range c.Prog.Maps() {
+			if _, err := exec.NewOutputModuleGraph(out, false, c.Prog.Modules(), 0); err != nil {
+				for i := range c.Prog.Graph.Mods {
+					c.Prog.Graph.Mods[i].Initial = 1
+				}
+				break
 			}
 		}
 	}
